@@ -19,5 +19,16 @@ for c in "$@"; do
   esac
   s=$(date +%s)
   VERIF_REPO=$W VERIF_EVIDENCE_DIR=/tmp/mutev-$id VERIF_SEED=${VERIF_SEED:-1} $cmd > out/mut/$id-$c.log 2>&1; rc=$?
+  python3 - "$id" "$c" "$tier" "$rc" out/mut/$id-$c.log >> seeded/results.jsonl <<'PY'
+import sys, json, re, subprocess
+id, c, tier, rc, logf = sys.argv[1:6]
+txt = open(logf).read()
+preds = sorted(set(re.findall(r"predicate (\S+) failed", txt)))
+others = re.findall(r"other properties' predicates failed in these runs.*?: (.*)", txt)
+print(json.dumps({"id": id, "check": c, "tier": tier, "rc": int(rc), "violations": len(re.findall(r"^VIOLATION", txt, re.M)),
+                  "drifts": len(re.findall(r"^DRIFT", txt, re.M)), "predicates": preds, "other_predicates": others[0].split(", ") if others else [],
+                  "skip_m": bool(__import__("os").environ.get("VERIF_SKIP_M")),
+                  "repo_head": subprocess.run(["git", "-C", "/repo", "log", "--format=%h", "-1"], stdout=subprocess.PIPE, text=True).stdout.strip()}))
+PY
   echo "MUTANT $id check=$c rc=$rc $(( $(date +%s) - s ))s viol=$(grep -c '^VIOLATION' out/mut/$id-$c.log) drift=$(grep -c '^DRIFT' out/mut/$id-$c.log) :: $(grep -m1 'predicate' out/mut/$id-$c.log | cut -c1-200)"
 done
